@@ -75,14 +75,16 @@ def _write_if_changed(path, content):
     os.replace(tmp, path)
 
 
-def build(pkg, race=False):
+def build(pkg, race=False, fuzz=None):
     modf, ov = prepare_build_inputs()
     tag = hashlib.sha1(REPO.encode()).hexdigest()[:8]
-    out = os.path.join(WORK, "bin", tag, pkg.replace("/", "_") + (".race" if race else "") + ".test")
+    out = os.path.join(WORK, "bin", tag, pkg.replace("/", "_") + (".race" if race else "") + (".fuzz" if fuzz else "") + ".test")
     os.makedirs(os.path.dirname(out), exist_ok=True)
     cmd = ["go", "test", "-c", "-vet=off", "-tags", "verif", f"-modfile={modf}", f"-overlay={ov}", "-o", out]
     if race:
         cmd.append("-race")
+    if fuzz:
+        cmd.append(f"-fuzz=^{fuzz}$")  # coverage instrumentation for native fuzzing
     cmd.append("./" + pkg + "/")
     t0 = time.time()
     p = subprocess.run(cmd, cwd=REPO, env=goenv(), stdout=subprocess.PIPE, stderr=subprocess.STDOUT, text=True)
@@ -162,12 +164,12 @@ def main():
     # ---- build every package this property needs (from the current working tree)
     bins = {}
     for part in spec["parts"]:
-        key = (part["pkg"], bool(part.get("race")))
+        key = (part["pkg"], bool(part.get("race")), part.get("fuzz") if tier == "thorough" else None)
         if key in bins:
             continue
         if part.get("race") and part.get("race") != "always" and tier != "thorough":
             continue
-        b = build(part["pkg"], race=bool(part.get("race")))
+        b = build(part["pkg"], race=bool(part.get("race")), fuzz=key[2])
         if b is None:
             write_evidence(pid, spec, tier, seed, [], time.time() - t0, infra="build failed")
             return 2
@@ -191,15 +193,23 @@ def main():
             env["VF_REPLAY"] = replay_file
         checks = part.get("checks", {}).get(tier, 100)
         tmo = part.get("timeout", {}).get(tier, 900 if tier == "quick" else 3600)
-        cmd = [bins[(part["pkg"], bool(part.get("race")))], "-test.run", part["run"], "-test.count=1",
-               f"-test.timeout={tmo}s", "-test.v=false"]
+        fuzzing = bool(part.get("fuzz")) and tier == "thorough" and not replay_file
+        cmd = [bins[(part["pkg"], bool(part.get("race")), part.get("fuzz") if tier == "thorough" else None)],
+               "-test.run", part["run"], "-test.count=1", f"-test.timeout={tmo}s", "-test.v=false"]
+        if fuzzing:
+            # native, coverage-guided fuzzing: a wall-clock budget (it cannot be pinned to a seed; the saved failing
+            # input / replay file is the reproducible unit); without -test.fuzz the seed corpus alone is run
+            ft = part.get("fuzztime", {}).get(tier, 120)
+            cmd[2] = "^$"
+            cmd += ["-test.fuzz", "^" + part["fuzz"] + "$", f"-test.fuzztime={ft}s", "-test.fuzzminimizetime=20s",
+                    "-test.fuzzcachedir", os.path.join(rundir, "fuzzcache." + name),
+                    f"-test.parallel={part.get('fuzzprocs', 8)}"]
+            tmo = ft + 300
         if part.get("rapid", True):
             cmd += [f"-rapid.checks={checks}", f"-rapid.seed={rs}", "-rapid.nofailfile",
                     f"-rapid.shrinktime={part.get('shrinktime', '20s')}"]
             if "steps" in part:
                 cmd += [f"-rapid.steps={part['steps'].get(tier, 30)}"]
-        if part.get("fuzz") and tier == "thorough" and not replay_file:
-            pass
         return (name, cmd, env, tmo + 60, part)
 
     if replay:
@@ -223,6 +233,8 @@ def main():
                 continue
             if part.get("tier_only") and part["tier_only"] != tier:
                 continue
+            if os.environ.get("VF_ONLY_PARTS") and part["name"] not in os.environ["VF_ONLY_PARTS"].split(","):
+                continue  # dev aid (sensitivity of a single part); never set by the registered commands
             n = part.get("shards", {}).get(tier, 1)
             for sh in range(n):
                 jobs.append(mkjob(part, sh, n))
@@ -245,6 +257,15 @@ def main():
                         these.append(json.loads(line))
                     except ValueError:
                         infra.append(f"{name}: unreadable stats line")
+        for snap in sorted(glob.glob(st + ".snap.*")):  # native fuzzing: last snapshot of every worker process
+            if snap.endswith(".tmp"):
+                continue
+            try:
+                r = json.loads(open(snap).read())
+                if r.get("evaluations") or r.get("violation"):
+                    these.append(r)
+            except (ValueError, OSError):
+                pass
         recs += these
         vio = [r for r in these if r.get("violation")]
         for r in vio:
